@@ -214,7 +214,9 @@ where
         match &remote_idle_timeout {
             Some(0) | None => self.heartbeat = HeartBeat::never(),
             Some(millis) => {
-                let period = Duration::from_millis(*millis as u64);
+                // Twice as often as the peer's idle-time-out asks for: no interval of that
+                // length may pass without a frame, so the period has to be shorter
+                let period = Duration::from_micros(*millis as u64 * 500);
                 self.heartbeat = HeartBeat::new(period);
             }
         };
@@ -318,11 +320,11 @@ where
                 // Set heartbeat here because in pipelined-open, the Open frame
                 // may be recved after mux loop is started
                 match &remote_idle_timeout {
+                    Some(0) | None => self.heartbeat = HeartBeat::never(),
                     Some(millis) => {
-                        let period = Duration::from_millis(*millis as u64);
+                        let period = Duration::from_micros(*millis as u64 * 500);
                         self.heartbeat = HeartBeat::new(period);
                     }
-                    None => self.heartbeat = HeartBeat::never(),
                 };
             }
             FrameBody::Begin(begin) => {
